@@ -54,11 +54,18 @@ struct W {
   // the broker receives the first n bytes of the pending write; ec is what the client's write_some is told
   void finish_write(vk::sock_rec* s, size_t n, error_code ec) {
     if (n > s->wdata.size()) n = s->wdata.size();
-    for (size_t i = 0; i < n && rx_n < RXCAP; i++) rx[rx_n++] = (uint8_t)s->wdata[i];
+    if (!s->delivered_early) { for (size_t i = 0; i < n && rx_n < RXCAP; i++) rx[rx_n++] = (uint8_t)s->wdata[i]; }
     vk_assert(rx_n < RXCAP, "harness: rx capacity");
     writes_completed++;
     vk::complete_write(s, ec ? 0 : n, ec);
     parse_rx();
+  }
+  // the bytes of the write in progress reach the broker now; the client learns about the completion of its write later
+  // (the broker can therefore answer before the client has processed the write completion: the "fast reply" path)
+  void deliver_early(vk::sock_rec* s) {
+    for (size_t i = 0; i < s->wdata.size() && rx_n < RXCAP; i++) rx[rx_n++] = (uint8_t)s->wdata[i];
+    vk_assert(rx_n < RXCAP, "harness: rx capacity"); s->delivered_early = true;
+    int saved = writes_completed; writes_completed++; parse_rx(); writes_completed = saved;
   }
   // the client's write succeeds locally but the bytes never reach the broker (connection dies with data in flight)
   void lose_write(vk::sock_rec* s) { writes_completed++; vk::complete_write(s, s->wdata.size(), {}); }
@@ -128,6 +135,7 @@ struct W {
     send_connack(session_present, 0, props, plen); feed_all(); vk::drain();
   }
   bool connected() const { auto* s = vk::pending_read(); return s && s->connected && !s->shut && connack_sent && out_avail() == 0; }
+  bool connected_or_writing() const { auto* s = vk::pending_read(); return s && s->connected && !s->shut && connack_sent; }
   // the client is trying to (re)connect: a resolve or TCP connect is pending, or it pauses on the backoff timer
   bool attempt_in_progress() const {
     if (vk::pending_resolve() || vk::pending_connect()) return true;
